@@ -1,225 +1,167 @@
-"""Translator piece for the fault model (C09): what the time-out / exception branches of the two task groups in
-src/koreo/workflow/reconcile.py build, and how src/koreo/resource_function/reconcile/__init__.py answers API
-errors  ->  lean/Koreo/Gen/WorkflowFaultConsts.lean
+"""Translator piece for the fault model (C09)  ->  lean/Koreo/Gen/WorkflowFaultConsts.lean
 
-Read with `ast` (no import of koreo):
+What the fault branches of src/koreo/workflow/reconcile.py build and how
+src/koreo/resource_function/reconcile/__init__.py answers API errors are established by PROBING the real functions on a
+small fixed table of inputs, not by looking at statement shapes (a behaviour-preserving restructuring — early returns,
+helpers, other names — leaves every fact as it is; a changed behaviour changes the table and breaks the theorem):
 
-  * `_reconcile_steps` and `_for_each_reconciler`: the `async with asyncio.timeout(X), asyncio.TaskGroup()` is inside a
-    `try` whose handler is a bare `except:` that only passes (faults are contained); X is STEP_TIMEOUT;
-    the post-loop is `if task.cancelled() … elif task.exception() … elif task.done()`; the outcome class and the
-    delay constant of the first two branches;
-  * `_reconcile_steps` only: the `outcome=` argument of the `_condition_helper` call in those two branches — is it the
-    outcome itself (`x.result`, or the Retry expression) or the `StepResult` tuple (defect F1) — and its condition type;
-  * `load_api_resource`: every `except` handler either treats the object as absent (404 / NotFound) or returns
-    `Retry(delay=DEFAULT_LOAD_RETRY_DELAY)`;  `_create_api_resource`: the `try` around `.create()` maps a 409
-    `ServerError` to Retry, any other `ServerError` and any other exception to PermFail;
-  * whether the awaits of `.patch(…)` / `.delete()` in `reconcile_krm_resource` are inside a `try` (they are not:
-    their exceptions escape the Function and are contained by the task group).
+  * `rfTable`: `reconcile_resource_function` against the in-memory API for every combination of
+        flags      patch | never | recreate | readonly | create disabled | deleteIfExists
+        situation  object absent | matching | differing
+        fault      none, or the GET / the mutation failing with raise-before, raise-after, 404, 409, 500, 403, 429,
+                   a ServerError without response, or never answering
+    each row = (answer: Ok / Retry(delay) / PermFail / an escaping exception / a hang, situation afterwards, the API
+    requests issued).  `Props/C09.lean` proves `rfPass objMach` equal to it row by row (`rf_table_matches_source`).
+  * the two task groups of `reconcile_workflow`: a one-step workflow (and a one-iteration forEach) whose PATCH never
+    answers / raises — does the pass return, after how long, which outcome class and delay does the step get, and
+    does the condition emitted for it say what `_condition_helper` says for that outcome (defect F1 if not).
 
-`Props/C09.lean` ties the model's constants and branch table to this file.
+Constants are read from the imported modules.  An extractor that cannot probe writes `extractionOk = false`.
 """
 from __future__ import annotations
 
-import ast
+import asyncio
+import copy
 import hashlib
 
 from common import LEAN, REPO
 
-CONSTS = ("STEP_TIMEOUT", "TIMEOUT_RETRY_DELAY", "UNKNOWN_ERROR_RETRY_DELAY")
+KINDS = ["raise-before", "raise-after", 404, 409, 500, "hang", 403, 429, "no-response"]
+LEAN_KIND = {"raise-before": ".raiseBefore", "raise-after": ".raiseAfter", 404: ".e404", 409: ".e409", 500: ".e500",
+             "hang": ".hang", 403: ".e4xx", 429: ".e4xx", "no-response": ".noResp"}
+CREATE_DELAY, UPDATE_DELAY = 7, 5
+API_VERSION, KIND, PLURAL, NS, NAME = "probe.verif.dev/v1", "FaultProbe", "faultprobes", "ns", "p"
+KEY = (API_VERSION, PLURAL, NS, NAME)
+CFGS = {     # name -> (spec fragments, Lean flags)
+    "patch": ({"update": {"patch": {"delay": UPDATE_DELAY}}}, {}),
+    "never": ({"update": {"never": {}}}, {"policy": ".never"}),
+    "recreate": ({"update": {"recreate": {"delay": UPDATE_DELAY}}}, {"policy": ".recreate"}),
+    "readonly": ({"readonly": True}, {"readonly": "true"}),
+    "nocreate": ({"create": {"enabled": False}}, {"createEnabled": "false"}),
+    "delete": ({"deleteIfExists": True}, {"deleteIfExists": "true"}),
+}
+STATES = ["absent", "matching", "differing"]
 
 
-def _consts(tree):
+def _spec(name):
+    frag = CFGS[name][0]
+    api = {"apiVersion": API_VERSION, "kind": KIND, "plural": PLURAL, "name": NAME, "namespace": NS}
+    for k in ("readonly", "deleteIfExists"):
+        if k in frag:
+            api[k] = frag[k]
+    return {"apiConfig": api, "resource": {"spec": {"want": 1}},
+            "create": frag.get("create", {"delay": CREATE_DELAY}),
+            "update": frag.get("update", {"patch": {"delay": UPDATE_DELAY}}), "return": {"v": 1}}
+
+
+def _situation(objects):
+    o = objects.get(KEY)
+    if o is None:
+        return "absent"
+    return "matching" if (o.get("spec") or {}).get("want") == 1 else "differing"
+
+
+def _probe_rf():
+    """[(cfg, state, fault (j, kind)|None, answer, state after, [methods])]"""
+    import celpy
+    import koreo_util as ku
+    from cluster import Cluster
+    from vloop import run_virtual
+    from koreo.cache import get_resource_from_cache
+    from koreo.resource_function.reconcile import reconcile_resource_function
+    from koreo.resource_function.structure import ResourceFunction
+
+    ku.reset()
+
+    async def offer():
+        for name in CFGS:
+            await ku.offer_resource_function(f"probe.{name}", _spec(name))
+
+    ku.run(offer())
+    rows = []
+    for name in CFGS:
+        fn = get_resource_from_cache(resource_class=ResourceFunction, cache_key=f"probe.{name}")
+        if fn is None or not hasattr(fn, "crud_config"):
+            raise RuntimeError(f"probe Function {name} was not prepared: {fn}")
+        for st in STATES:
+            objs = {}
+            if st != "absent":
+                objs[KEY] = {"apiVersion": API_VERSION, "kind": KIND,
+                             "metadata": {"name": NAME, "namespace": NS, "ownerReferences": [dict(ku.OWNER_REF)]},
+                             "spec": {"want": 1 if st == "matching" else 2}}
+            for fault in [None] + [(j, k) for j in (0, 1) for k in KINDS]:
+                cl = Cluster(objects=copy.deepcopy(objs), faults=({fault[0]: fault[1]} if fault else None))
+
+                async def go():
+                    return await asyncio.wait_for(reconcile_resource_function(
+                        api=cl, location="probe", function=fn, owner=(NS, dict(ku.OWNER_REF)),
+                        inputs=celpy.json_to_cel({})), 5.0)
+
+                try:
+                    res, _, _ = run_virtual(go())
+                    c = ku.outcome_class(res.outcome)
+                    ans = f"retry:{int(res.outcome.delay)}" if c == "retry" else c
+                except (asyncio.TimeoutError, TimeoutError):
+                    ans = "hung"
+                except (KeyboardInterrupt, SystemExit):
+                    raise
+                except BaseException:
+                    ans = "raised"
+                rows.append((name, st, fault, ans, _situation(cl.objects), [e["method"] for e in cl.log]))
+    ku.reset()
+    return rows
+
+
+def _probe_groups():
+    """{'steps'|'items': {'cancelled'|'exception': {returned, elapsed, class, delay, cond_type, cond_reason, expected_reason}}}"""
+    import celpy
+    import koreo_util as ku
+    from cluster import Cluster
+    from vloop import run_virtual
+    from koreo.cache import get_resource_from_cache
+    from koreo.workflow import reconcile as wfr
+    from koreo.workflow.structure import Workflow
+
     out = {}
-    for node in tree.body:
-        if isinstance(node, ast.Assign) and len(node.targets) == 1 and isinstance(node.targets[0], ast.Name):
-            if isinstance(node.value, ast.Constant) and isinstance(node.value.value, int):
-                out[node.targets[0].id] = node.value.value
+    for group in ("steps", "items"):
+        out[group] = {}
+        for branch, fault in (("cancelled", "hang"), ("exception", "raise-before")):
+            ku.reset()
+
+            async def offer():
+                await ku.offer_resource_function("probe.g", _spec("patch"))
+                step = {"label": "stp", "ref": {"kind": "ResourceFunction", "name": "probe.g"},
+                        "condition": {"type": "Cstp", "name": "stp"}}
+                if group == "items":
+                    step["forEach"] = {"itemIn": '=["a"]', "inputKey": "item"}
+                await ku.offer_workflow("probe.wf", {"steps": [step]})
+
+            ku.run(offer())
+            wf = get_resource_from_cache(resource_class=Workflow, cache_key="probe.wf")
+            objs = {KEY: {"apiVersion": API_VERSION, "kind": KIND,
+                          "metadata": {"name": NAME, "namespace": NS, "ownerReferences": [dict(ku.OWNER_REF)]},
+                          "spec": {"want": 2}}}
+            cl = Cluster(objects=objs, faults={1: fault})      # the PATCH
+            rec = {"returned": False}
+            try:
+                res, elapsed, _ = run_virtual(wfr.reconcile_workflow(
+                    api=cl, workflow_key="probe", owner=(NS, dict(ku.OWNER_REF)), trigger=celpy.json_to_cel({}),
+                    workflow=wf))
+                o = res.result
+                c = ku.outcome_class(o)
+                cond = res.conditions[0]
+                expected = wfr._condition_helper(condition_type="x", thing_name="x", outcome=o, workflow_key="probe")
+                rec = {"returned": True, "elapsed": elapsed, "class": {"retry": "Retry", "permFail": "PermFail"}.get(c, c),
+                       "delay": int(o.delay) if c == "retry" else 0, "cond_type": cond.get("type"),
+                       "cond_reason": cond.get("reason"), "expected_reason": expected.get("reason"),
+                       "conditions": len(res.conditions)}
+            except (KeyboardInterrupt, SystemExit):
+                raise
+            except BaseException as e:
+                rec["error"] = repr(e)
+            out[group][branch] = rec
+    ku.reset()
     return out
-
-
-def _func(tree, name):
-    for n in ast.walk(tree):
-        if isinstance(n, (ast.FunctionDef, ast.AsyncFunctionDef)) and n.name == name:
-            return n
-    return None
-
-
-def _is_call_attr(node, attr):
-    """`<something>.attr(...)`"""
-    return isinstance(node, ast.Call) and isinstance(node.func, ast.Attribute) and node.func.attr == attr
-
-
-def _outcome_ctor(node):
-    """(class name, delay expr) of `result.Retry(...)` / `Retry(...)` / `PermFail(...)`, else None"""
-    if not isinstance(node, ast.Call):
-        return None
-    f = node.func
-    name = f.attr if isinstance(f, ast.Attribute) else f.id if isinstance(f, ast.Name) else None
-    if name not in ("Retry", "PermFail", "Ok", "Skip", "DepSkip"):
-        return None
-    delay = next((k.value for k in node.keywords if k.arg == "delay"), None)
-    return name, delay
-
-
-def _value_of(expr, consts):
-    if isinstance(expr, ast.Constant) and isinstance(expr.value, int):
-        return expr.value
-    if isinstance(expr, ast.Name):
-        return consts.get(expr.id)
-    return None
-
-
-def _group(fn, consts):
-    """facts about the task group of one function"""
-    info = {"contained": False, "timeout_is_step_timeout": False}
-    for t in [n for n in ast.walk(fn) if isinstance(n, ast.Try)]:
-        withs = [n for n in t.body if isinstance(n, ast.AsyncWith)]
-        if not withs:
-            continue
-        items = withs[0].items
-        has_tg = any(_is_call_attr(i.context_expr, "TaskGroup") for i in items)
-        to = [i.context_expr for i in items if _is_call_attr(i.context_expr, "timeout")]
-        if not has_tg:
-            continue
-        info["timeout_is_step_timeout"] = bool(to) and len(to[0].args) == 1 and isinstance(to[0].args[0], ast.Name) \
-            and to[0].args[0].id == "STEP_TIMEOUT"
-        # every exception (BaseException included) is swallowed, nothing else happens in the handler
-        info["contained"] = (len(t.handlers) == 1
-                             and (t.handlers[0].type is None
-                                  or (isinstance(t.handlers[0].type, ast.Name) and t.handlers[0].type.id == "BaseException"))
-                             and all(isinstance(s, ast.Pass) for s in t.handlers[0].body)
-                             and not t.finalbody and not t.orelse)
-    return info
-
-
-def _branches(fn, consts):
-    """the cancelled / exception branches of the post-loop: {branch: {class, delay, cond_from_outcome, cond_type}}"""
-    out = {}
-    for loop in [n for n in ast.walk(fn) if isinstance(n, ast.For)]:
-        for st in loop.body:
-            if not isinstance(st, ast.If):
-                continue
-            chain = []
-            cur = st
-            while isinstance(cur, ast.If):
-                chain.append((cur.test, cur.body))
-                cur = cur.orelse[0] if len(cur.orelse) == 1 and isinstance(cur.orelse[0], ast.If) else None
-            tests = [t.func.attr if _is_call_attr(t, t.func.attr if isinstance(t, ast.Call) and isinstance(t.func, ast.Attribute) else "") else None
-                     for t, _ in chain]
-            if tests[:3] != ["cancelled", "exception", "done"]:
-                continue
-            for (test, body), branch in zip(chain[:2], ("cancelled", "exception")):
-                ctors = [c for n in body for c in [_outcome_ctor(x) for x in ast.walk(n)] if c]
-                # names bound in this branch to a StepResult(...) tuple / to a bare outcome
-                tuple_names, outcome_names = set(), set()
-                for n in body:
-                    if isinstance(n, ast.Assign) and len(n.targets) == 1 and isinstance(n.targets[0], ast.Name):
-                        v = n.value
-                        if isinstance(v, ast.Call) and isinstance(v.func, ast.Name) and v.func.id == "StepResult":
-                            tuple_names.add(n.targets[0].id)
-                        elif _outcome_ctor(v):
-                            outcome_names.add(n.targets[0].id)
-                cond_from_outcome = None
-                cond_type = None
-                for n in body:
-                    for call in [x for x in ast.walk(n) if isinstance(x, ast.Call)]:
-                        if isinstance(call.func, ast.Name) and call.func.id == "_condition_helper":
-                            arg = next((k.value for k in call.keywords if k.arg == "outcome"), None)
-                            ct = next((k.value for k in call.keywords if k.arg == "condition_type"), None)
-                            cond_type = ct.value if isinstance(ct, ast.Constant) else None
-                            if isinstance(arg, ast.Attribute) and arg.attr == "result" and isinstance(arg.value, ast.Name) \
-                                    and arg.value.id in tuple_names:
-                                cond_from_outcome = True
-                            elif isinstance(arg, ast.Name) and arg.id in outcome_names:
-                                cond_from_outcome = True
-                            elif arg is not None and _outcome_ctor(arg):
-                                cond_from_outcome = True
-                            else:
-                                cond_from_outcome = False
-                classes = {c[0] for c in ctors}
-                delays = {_value_of(c[1], consts) for c in ctors}
-                out[branch] = {"class": classes.pop() if len(classes) == 1 else None,
-                               "delay": delays.pop() if len(delays) == 1 else None,
-                               "cond_from_outcome": cond_from_outcome, "cond_type": cond_type}
-    return out
-
-
-def _returns(stmts):
-    """outcome classes returned anywhere in the statements"""
-    out = []
-    for s in stmts:
-        for n in ast.walk(s):
-            if isinstance(n, ast.Return) and n.value is not None:
-                c = _outcome_ctor(n.value)
-                out.append((c[0], c[1]) if c else ("?", None))
-    return out
-
-
-def _handler_name(h):
-    t = h.type
-    if t is None:
-        return "*"
-    if isinstance(t, ast.Attribute):
-        return t.attr
-    if isinstance(t, ast.Name):
-        return t.id
-    return "?"
-
-
-def _rf_table(tree):
-    info = {}
-    load = _func(tree, "load_api_resource")
-    ok = load is not None
-    load_retry = False
-    if load is not None:
-        tries = [n for n in load.body if isinstance(n, ast.Try)]
-        ok = ok and len(tries) == 1
-        if tries:
-            kinds = {}
-            for h in tries[0].handlers:
-                rets = _returns(h.body)
-                kinds[_handler_name(h)] = rets
-            info["load_handlers"] = {k: [r[0] for r in v] for k, v in kinds.items()}
-            # NotFoundError: absent (no return); ServerError: Retry unless 404; Exception: Retry
-            load_retry = (kinds.get("NotFoundError") == []
-                          and [r[0] for r in kinds.get("ServerError", [])] == ["Retry"]
-                          and [r[0] for r in kinds.get("Exception", [])] == ["Retry"]
-                          and all(isinstance(r[1], ast.Name) and r[1].id == "DEFAULT_LOAD_RETRY_DELAY"
-                                  for k in ("ServerError", "Exception") for r in kinds.get(k, [])))
-    create = _func(tree, "_create_api_resource")
-    conflict_retry = other_permfail = exc_permfail = False
-    if create is not None:
-        for t in [n for n in ast.walk(create) if isinstance(n, ast.Try)]:
-            if not any(_is_call_attr(x, "create") for s in t.body for x in ast.walk(s)):
-                continue
-            for h in t.handlers:
-                name = _handler_name(h)
-                if name == "ServerError":
-                    ifs = [s for s in h.body if isinstance(s, ast.If)]
-                    has_409 = any(isinstance(c, ast.Constant) and c.value == 409 for i in ifs for c in ast.walk(i.test))
-                    conflict_retry = has_409 and any([r[0] for r in _returns(i.body)] == ["Retry"] for i in ifs)
-                    rest = [s for s in h.body if not isinstance(s, ast.If)]
-                    other_permfail = [r[0] for r in _returns(rest)] == ["PermFail"]
-                elif name == "Exception":
-                    exc_permfail = [r[0] for r in _returns(h.body)] == ["PermFail"]
-    krm = _func(tree, "reconcile_krm_resource")
-    guarded = {"patch": None, "delete": None}
-    if krm is not None:
-        in_try = set()
-        for t in [n for n in ast.walk(krm) if isinstance(n, ast.Try)]:
-            for s in t.body:
-                for x in ast.walk(s):
-                    in_try.add(id(x))
-        for x in ast.walk(krm):
-            for m in ("patch", "delete"):
-                if _is_call_attr(x, m) and isinstance(x.func.value, ast.Name) and x.func.value.id == "api_resource":
-                    g = id(x) in in_try
-                    guarded[m] = g if guarded[m] is None else (guarded[m] and g)
-    info.update({"load_errors_retry": load_retry, "create_conflict_retry": conflict_retry,
-                 "create_other_permfail": other_permfail, "create_exception_permfail": exc_permfail,
-                 "patch_guarded": guarded["patch"], "delete_guarded": guarded["delete"]})
-    ok = ok and create is not None and krm is not None and guarded["patch"] is not None and guarded["delete"] is not None
-    return ok, info
 
 
 def _b(x) -> str:
@@ -230,70 +172,88 @@ def _s(x) -> str:
     return '"' + str(x if x is not None else "?").replace("\\", "\\\\").replace('"', '\\"') + '"'
 
 
+def _lean_cfg(name, load_delay):
+    flags = {"deleteIfExists": "false", "readonly": "false", "createEnabled": "true", "policy": ".patch"}
+    flags.update(CFGS[name][1])
+    return ("{ deleteIfExists := %s, readonly := %s, createEnabled := %s, policy := %s, loadDelay := %d, "
+            "createDelay := %d, updateDelay := %d }" % (flags["deleteIfExists"], flags["readonly"], flags["createEnabled"],
+                                                        flags["policy"], load_delay, CREATE_DELAY, UPDATE_DELAY))
+
+
+def _lean_ans(ans, st):
+    if ans == "ok":
+        return f".ok .{st}"
+    if ans.startswith("retry:"):
+        return f".retry {int(ans[6:])}"
+    return {"permFail": ".permFail", "raised": ".raised", "hung": ".hung"}.get(ans, ".hung")
+
+
 def extract() -> dict:
     wpath = REPO / "src" / "koreo" / "workflow" / "reconcile.py"
     rpath = REPO / "src" / "koreo" / "resource_function" / "reconcile" / "__init__.py"
-    info = {"files": [str(wpath), str(rpath)]}
+    info = {"files": [str(wpath), str(rpath)], "method": "behavioural probe of the real functions"}
     ok = True
-    consts, groups, branches, rf = {}, {}, {}, {}
+    consts = {"STEP_TIMEOUT": 0, "TIMEOUT_RETRY_DELAY": 0, "UNKNOWN_ERROR_RETRY_DELAY": 0, "DEFAULT_LOAD_RETRY_DELAY": 0}
+    rows, groups = [], {}
     try:
-        wsrc, rsrc = wpath.read_bytes(), rpath.read_bytes()
-        info["sha"] = hashlib.sha256(wsrc + rsrc).hexdigest()[:16]
-        wtree = ast.parse(wsrc)
-        consts = _consts(wtree)
-        for key, fname in (("steps", "_reconcile_steps"), ("items", "_for_each_reconciler")):
-            fn = _func(wtree, fname)
-            if fn is None:
-                ok = False
-                continue
-            groups[key] = _group(fn, consts)
-            branches[key] = _branches(fn, consts)
-        rok, rf = _rf_table(ast.parse(rsrc))
-        ok = ok and rok
-    except Exception as e:  # unreadable source: the tie theorem must fail, not the extractor
+        info["sha"] = hashlib.sha256(wpath.read_bytes() + rpath.read_bytes()).hexdigest()[:16]
+        from koreo import constants as kconst
+        from koreo.workflow import reconcile as wfr
+
+        consts = {"STEP_TIMEOUT": int(wfr.STEP_TIMEOUT), "TIMEOUT_RETRY_DELAY": int(wfr.TIMEOUT_RETRY_DELAY),
+                  "UNKNOWN_ERROR_RETRY_DELAY": int(wfr.UNKNOWN_ERROR_RETRY_DELAY),
+                  "DEFAULT_LOAD_RETRY_DELAY": int(kconst.DEFAULT_LOAD_RETRY_DELAY)}
+        rows = _probe_rf()
+        groups = _probe_groups()
+    except Exception as e:  # cannot probe: the tie theorems must fail, not the extractor
         ok = False
         info["error"] = repr(e)
 
-    def br(key, branch, field):
-        return (branches.get(key, {}).get(branch) or {}).get(field)
+    def g(group, branch, field, default=None):
+        return ((groups.get(group) or {}).get(branch) or {}).get(field, default)
 
-    for key in ("steps", "items"):
+    for group in ("steps", "items"):
         for branch in ("cancelled", "exception"):
-            if br(key, branch, "class") is None or br(key, branch, "delay") is None:
-                ok = False
-    if any(consts.get(c) is None for c in CONSTS):
+            if not g(group, branch, "returned"):
+                ok = ok and False if not groups else ok      # a pass that does not return is a fact, not a failed extraction
+    if not rows or not groups:
         ok = False
     lines = [
-        "-- REGENERATED by harness/extractors/WorkflowFaultConsts.py from src/koreo/workflow/reconcile.py and",
+        "-- REGENERATED by harness/extractors/WorkflowFaultConsts.py by probing src/koreo/workflow/reconcile.py and",
         "-- src/koreo/resource_function/reconcile/__init__.py; do not edit.",
+        "import Koreo.WorkflowFaults",
         "namespace Koreo.Gen.WorkflowFaultConsts",
+        "open Koreo.WorkflowFaults",
         f"def extractionOk : Bool := {_b(ok)}",
-        f"def stepTimeout : Nat := {consts.get('STEP_TIMEOUT') or 0}",
-        f"def timeoutRetryDelay : Int := {consts.get('TIMEOUT_RETRY_DELAY') or 0}",
-        f"def unknownErrorRetryDelay : Int := {consts.get('UNKNOWN_ERROR_RETRY_DELAY') or 0}",
+        f"def stepTimeout : Nat := {consts['STEP_TIMEOUT']}",
+        f"def timeoutRetryDelay : Int := {consts['TIMEOUT_RETRY_DELAY']}",
+        f"def unknownErrorRetryDelay : Int := {consts['UNKNOWN_ERROR_RETRY_DELAY']}",
+        f"def loadRetryDelay : Int := {consts['DEFAULT_LOAD_RETRY_DELAY']}",
     ]
-    for key in ("steps", "items"):
-        g = groups.get(key, {})
-        lines.append(f"def {key}Contained : Bool := {_b(g.get('contained'))}")
-        lines.append(f"def {key}TimeoutIsStepTimeout : Bool := {_b(g.get('timeout_is_step_timeout'))}")
+    for group in ("steps", "items"):
+        contained = all(g(group, b, "returned") for b in ("cancelled", "exception"))
+        in_time = g(group, "cancelled", "elapsed") == consts["STEP_TIMEOUT"] and g(group, "exception", "elapsed") == 0
+        lines.append(f"def {group}Contained : Bool := {_b(contained)}")
+        lines.append(f"def {group}TimeoutIsStepTimeout : Bool := {_b(in_time)}")
         for branch in ("cancelled", "exception"):
             b = branch.capitalize()
-            lines.append(f"def {key}{b}Class : String := {_s(br(key, branch, 'class'))}")
-            lines.append(f"def {key}{b}Delay : Int := {br(key, branch, 'delay') or 0}")
+            lines.append(f"def {group}{b}Class : String := {_s(g(group, branch, 'class'))}")
+            lines.append(f"def {group}{b}Delay : Int := {g(group, branch, 'delay', 0) or 0}")
     for branch in ("cancelled", "exception"):
         b = branch.capitalize()
-        lines.append(f"def steps{b}CondFromOutcome : Bool := {_b(br('steps', branch, 'cond_from_outcome'))}")
-        lines.append(f"def steps{b}CondType : String := {_s(br('steps', branch, 'cond_type'))}")
-    lines += [
-        f"def loadErrorsRetry : Bool := {_b(rf.get('load_errors_retry'))}",
-        f"def createConflictRetry : Bool := {_b(rf.get('create_conflict_retry'))}",
-        f"def createOtherPermFail : Bool := {_b(rf.get('create_other_permfail'))}",
-        f"def createExceptionPermFail : Bool := {_b(rf.get('create_exception_permfail'))}",
-        f"def patchGuarded : Bool := {_b(rf.get('patch_guarded'))}",
-        f"def deleteGuarded : Bool := {_b(rf.get('delete_guarded'))}",
-        "end Koreo.Gen.WorkflowFaultConsts",
-        "",
-    ]
+        from_outcome = g("steps", branch, "returned") and g("steps", branch, "cond_reason") == g("steps", branch, "expected_reason")
+        lines.append(f"def steps{b}CondFromOutcome : Bool := {_b(from_outcome)}")
+        lines.append(f"def steps{b}CondType : String := {_s(g('steps', branch, 'cond_type'))}")
+    lines.append("/-- (flags, situation, fault, answer, situation afterwards, API requests) observed on the real code -/")
+    lines.append("def rfTable : List (RfCfg × ObjState × Option (Nat × FaultKind) × RAns ObjState × ObjState × List Method) := [")
+    meth = {"GET": ".get", "POST": ".post", "PATCH": ".patch", "DELETE": ".delete"}
+    body = []
+    for name, st, fault, ans, after, calls in rows:
+        f = "none" if fault is None else f"some ({fault[0]}, {LEAN_KIND[fault[1]]})"
+        body.append(f"  ({_lean_cfg(name, consts['DEFAULT_LOAD_RETRY_DELAY'])}, .{st}, {f}, {_lean_ans(ans, st)}, .{after}, "
+                    f"[{', '.join(meth.get(m, '.get') for m in calls)}])")
+    lines.append(",\n".join(body))
+    lines += ["]", "end Koreo.Gen.WorkflowFaultConsts", ""]
     text = "\n".join(lines)
     gen = LEAN / "Koreo" / "Gen"
     gen.mkdir(parents=True, exist_ok=True)
@@ -301,6 +261,9 @@ def extract() -> dict:
     changed = not (p.exists() and p.read_text() == text)
     if changed:
         p.write_text(text)
-    info.update({"ok": ok, "rewritten": changed, "consts": {c: consts.get(c) for c in CONSTS}, "groups": groups,
-                 "branches": branches, "rf": rf})
+    summary = {}
+    for name, st, fault, ans, after, calls in rows:
+        summary[ans.split(":")[0]] = summary.get(ans.split(":")[0], 0) + 1
+    info.update({"ok": ok, "rewritten": changed, "consts": consts, "groups": groups, "rf_rows": len(rows),
+                 "rf_answers": summary})
     return info
